@@ -64,7 +64,7 @@ def main():
             "name": "powhsm-sa",
             "path": "/verif/sa",
             "serves_properties": [c["property_id"] for c in checks],
-            "kind_free_text": "repository-specific AST analyser: exception-aware CFGs with "
+            "kind_free_text": "repository-specific AST analyser over a behaviour-preserving normal form (helper inlining, constant-loop unrolling): predicate-abstraction decision tables of acyclic CFG regions, canonical list / byte-layout / hash-stream forms, exception-aware CFGs with "
                               "dominators, call graph with value flow and effects, exception "
                               "escape, provenance terms, cross-language table agreement "
                               "(Python / firmware C / Markdown)",
